@@ -1,6 +1,7 @@
 package gen
 
 import (
+	"strconv"
 	"strings"
 
 	"pgregory.net/rapid"
@@ -143,9 +144,9 @@ func validators(t *rapid.T, label string) [][2]string {
 	case 0:
 		return [][2]string{H("Etag", `"v$S"`)}
 	case 1:
-		return [][2]string{H("Last-Modified", "$T-100000")}
+		return [][2]string{H("Last-Modified", Pick(t, label+"-lmfmt", "$T-100000", "$T-100000", "$R-100000", "$A-100000"))}
 	case 2:
-		return [][2]string{H("Etag", `"v$S"`), H("Last-Modified", "$T-100000")}
+		return [][2]string{H("Etag", `"v$S"`), H("Last-Modified", Pick(t, label+"-lmfmt", "$T-100000", "$T-100000", "$R-100000", "$A-100000"))}
 	}
 	return nil
 }
@@ -156,7 +157,20 @@ func validators(t *rapid.T, label string) [][2]string {
 // of them may change how the directives after them are read.
 var ExtDirectives = []string{`ext="a\"b"`, `ext="a\",b"`, `ext="x, no-cache"`, `ext="C:\\"`, `ext="\\\\"`, `ext="\\", ext2="y"`,
 	"e1, e2=2, e3, e4=\"4\", e5, e6, e7, e8, e9, e10, e11, e12, e13, e14, e15, e16, e17, e18",
-	"e1, e1, e1, e1, e1, e1, e1, e1, e1, e1, e1, e1, e1, e1, e1, e1, e1"}
+	"e1, e1, e1, e1, e1, e1, e1, e1, e1, e1, e1, e1, e1, e1, e1, e1, e1",
+	// long lists: no limit on the number of members is part of the grammar
+	manyExt(33), manyExt(70), manyExt(300)}
+
+func manyExt(n int) string {
+	var b strings.Builder
+	for i := 1; i <= n; i++ {
+		if i > 1 {
+			b.WriteString(", ")
+		}
+		b.WriteString("x" + strconv.Itoa(i))
+	}
+	return b.String()
+}
 
 // MaybeExt puts an extension directive in front of a directive list now and then.
 func MaybeExt(t *rapid.T, label string, cc []string, pct int) []string {
@@ -204,7 +218,7 @@ func storedDirectives(t *rapid.T, h *Hist, label string) (cc []string, life int6
 	life = Pick(t, label+"-life", int64(0), 1, 10, 60, 3600)
 	h.Note(life)
 	if Pct(t, label+"-hasma", 90) {
-		cc = append(cc, "max-age="+itoa(life))
+		cc = append(cc, "max-age="+PadZeros(t, label+"-mapad", itoa(life)))
 	} else {
 		life = 0
 	}
@@ -255,9 +269,9 @@ func requestDirectives(t *rapid.T, h *Hist, label string, forceOIC bool) string 
 	}
 	switch Weighted(t, label+"-ma", 55, 15, 30) {
 	case 1:
-		cc = append(cc, "max-age=0")
+		cc = append(cc, "max-age="+PadZeros(t, label+"-ma0pad", "0"))
 	case 2:
-		cc = append(cc, "max-age="+itoa(SecondsNear(t, label+"-man", h.InPlay)))
+		cc = append(cc, "max-age="+PadZeros(t, label+"-manpad", itoa(SecondsNear(t, label+"-man", h.InPlay))))
 	}
 	switch Weighted(t, label+"-ms", 60, 20, 20) {
 	case 1:
@@ -530,6 +544,13 @@ func C13(t *rapid.T) *world.Scenario {
 			rq.DeadlineNs = Pick(t, lbl+"-dl", int64(1), 3) * Sec
 		case 1:
 			fail = &world.Reply{Kind: "resp", Status: Pick(t, lbl+"-st", 500, 502, 503, 504), Body: world.Body{Len: 10}, Header: [][2]string{H("Date", "$T+0")}}
+			if Pct(t, lbl+"-stall", 25) {
+				// the status line and header arrive, then the origin stops sending: a response the
+				// cache drops must not be waited for (the caller's own deadline ends the read of
+				// one that is handed on)
+				fail.Body.StallAt = Pick(t, lbl+"-stallat", 1, 5)
+				rq.DeadlineNs = 30 * Sec
+			}
 		case 2:
 			fail = &world.Reply{Kind: "resp", Status: Pick(t, lbl+"-st2", 400, 403, 404, 429, 501, 505, 507, 599), Body: world.Body{Len: 10}, Header: [][2]string{H("Date", "$T+0")}}
 		case 3:
@@ -661,7 +682,12 @@ func C20(t *rapid.T) *world.Scenario {
 			lat = 0
 		}
 		var out world.Reply
-		switch Weighted(t, lbl+"-out", 35, 20, 10, 12, 12, 11) {
+		switch Weighted(t, lbl+"-out", 35, 20, 10, 12, 12, 11, 10) {
+		case 6:
+			// the header section arrives in time, then the body stalls: the timeout bounds the
+			// whole background request, reading its body included
+			out = world.Reply{Kind: "resp", Status: Pick(t, lbl+"-stallst", 200, 200, 503), Body: world.Body{Len: 30, StallAt: Pick(t, lbl+"-stallat", 1, 6, 30)}, Header: [][2]string{H("Date", "$T+0"),
+				H("Cache-Control", "max-age="+itoa(life)+", stale-while-revalidate="+itoa(win)), H("Etag", `"v$S"`)}}
 		case 0:
 			out = world.Reply{Kind: "resp", Status: 304, Header: [][2]string{H("Date", "$T+0")}}
 		case 1:
